@@ -198,7 +198,7 @@ func cmpLayers(tier string) []Layer {
 func init() {
 	register(&Property{
 		ID: "C16", Level: "model_checking",
-		Rule: "a case is an ordered pair (or triple) of decorated values; pairs are non-trivial when both are finite with equal sign and exponent so that the word-by-word mantissa loop decides; triples are non-trivial when the premise x<=y<=z holds",
+		Rule:        "a case is an ordered pair (or triple) of decorated values; pairs are non-trivial when both are finite with equal sign and exponent so that the word-by-word mantissa loop decides; triples are non-trivial when the premise x<=y<=z holds",
 		Assumptions: []string{"exact order computed on big.Int by mc/ref.go CmpVal"},
 		Layers:      cmpLayers,
 	})
